@@ -96,6 +96,7 @@ def dumpReqB : Field := 23
 def dumpRespH : Field := 24
 def dumpRespB : Field := 25
 def baseURL : Field := 26
+def scheme : Field := 32
 def allowGetPayload : Field := 27
 def dialTLS : Field := 47
 def enableH2C : Field := 46
@@ -145,17 +146,17 @@ def VState.empty : VState := ⟨0, fun _ => emptyOwner⟩
 /-- Initial field values of `req.C()`: two built-in response middlewares (ids 900, 901) in
 `afterResponse`, `AllowGetMethodPayload = true`, a cookie jar from the default factory (id 0),
 dump options all on (what `getDumpOptions` creates on first use), 100 idle connections, 90 s idle timeout, 10 s handshake timeout, 1 s expect-continue timeout,
-2 min client timeout, proxy from the environment (id 0). -/
+2 min client timeout (durations in seconds), proxy from the environment (id 0). -/
 def initVal (f : Field) : AMap :=
   match f.val with
   | 6 => [(0, [900, 901])]
   | 22 | 23 | 24 | 25 => [(0, [1])]
   | 27 => [(0, [1])]
-  | 37 => [(0, [10000])]
+  | 37 => [(0, [10])]
   | 38 => [(0, [100])]
-  | 40 => [(0, [90000])]
-  | 42 => [(0, [1000])]
-  | 61 => [(0, [120000])]
+  | 40 => [(0, [90])]
+  | 42 => [(0, [1])]
+  | 61 => [(0, [120])]
   | _ => []
 
 inductive Prim
@@ -171,8 +172,10 @@ inductive Prim
   wrapper slice, jar from the factory) -/
   | copyFrom (o : Nat) (dst src : Field)
   /-- `WrapRoundTrip`: the first call stores the caller's slice, later calls append; the closure
-  chain `ch` grows by the same ids -/
-  | wrap (o : Nat) (sl ch : Field) (xs : List Nat)
+  chain `ch` grows by the same ids. `built`: the caller's slice was built by appending one
+  wrapper at a time (`WrapRoundTripFunc`), so it may have spare capacity — only the
+  reference-aware model cares. -/
+  | wrap (o : Nat) (sl ch : Field) (xs : List Nat) (built : Bool)
   /-- a response stored cookie `v` in the jar of the request's client -/
   | jarStore (req : Nat) (v : Nat)
 
@@ -209,7 +212,7 @@ def stepV (s : VState) : Prim → VState
   | .append o f xs =>
     if kind f = .slice then s.updOwner o fun w => w.setVal f (appendV (w.val f) xs) else s
   | .copyFrom o dst src => s.updOwner o fun w => w.setVal dst (norm (kind dst) (w.val src))
-  | .wrap o sl ch xs =>
+  | .wrap o sl ch xs _ =>
     if kind sl = .slice ∧ kind ch = .box ∧ ¬ xs.isEmpty then
       s.updOwner o fun w =>
         let w1 := if (w.val ch).toList.isEmpty then w.setVal sl (AMap.ofList xs)
@@ -256,8 +259,8 @@ inductive Setter
   | formAdd (k v : Nat)           -- SetCommonFormDataFromValues / SetFormDataFromValues
   | before (id : Nat)             -- OnBeforeRequest
   | after (id : Nat)              -- OnAfterResponse (client and request)
-  | wrap (ids : List Nat)         -- WrapRoundTrip / WrapRoundTripFunc
-  | twrap (ids : List Nat)        -- Transport.WrapRoundTrip / WrapRoundTripFunc
+  | wrap (ids : List Nat) (func : Bool)   -- WrapRoundTrip / WrapRoundTripFunc (`func = true`)
+  | twrap (ids : List Nat) (func : Bool)  -- Transport.WrapRoundTrip / WrapRoundTripFunc
   | retryCount (n : Nat)          -- SetCommonRetryCount / SetRetryCount
   | retryInterval (id : Nat)      -- SetCommonRetryInterval, …FixedInterval / SetRetryInterval
   | retryCondSet (id : Nat)       -- SetCommonRetryCondition / SetRetryCondition
@@ -290,8 +293,8 @@ def Setter.prims (o : Nat) : Setter → List Prim
   | .formAdd k v => [.add o F.form k [v]]
   | .before id => [.append o F.udBefore [id]]
   | .after id => [.append o F.after [id]]
-  | .wrap ids => [.wrap o F.wrappers F.wrapChain ids]
-  | .twrap ids => [.wrap o F.tWrappers F.tWrapChain ids]
+  | .wrap ids fn => [.wrap o F.wrappers F.wrapChain ids fn]
+  | .twrap ids fn => [.wrap o F.tWrappers F.tWrapChain ids fn]
   | .retryCount n => [.set o F.retryCount 0 [n]]
   | .retryInterval id => [.set o F.retryInterval 0 [id]]
   | .retryCondSet id => [.replace o F.retryConds [(0, [id])]]
@@ -467,16 +470,20 @@ def retryLoop (x : ExecCtx) : (fuel : Nat) → (attempt : Nat) → Nat × List E
         let (n, rest) := retryLoop x fuel (a + 1)
         (n, log ++ cl ++ hl ++ [(7, x.interval, a + 1)] ++ rest)
 
+/-- where the dump of an execution goes and which of the four parts it has (`[]`: nothing dumped) -/
 def dumpFlags (w : VOwner) (hasBody : Bool) : List Nat :=
   if (w.val F.dumpOn).scalar == 0 then []
-  else [(w.val F.dumpOutput).scalar, (w.val F.dumpReqH).scalar,
-        if hasBody then (w.val F.dumpReqB).scalar else 0,
-        (w.val F.dumpRespH).scalar, (w.val F.dumpRespB).scalar]
+  else
+    let parts := [(w.val F.dumpReqH).scalar, if hasBody then (w.val F.dumpReqB).scalar else 0,
+                  (w.val F.dumpRespH).scalar, (w.val F.dumpRespB).scalar]
+    if parts.all (· == 0) then [] else (w.val F.dumpOutput).scalar :: parts
 
 /-- What the origin receives for request record `rq` of client record `cl`. -/
 def emit (cl rq : VOwner) (method mode : Nat) (path : List Seg) : Option ReqObs :=
   let base := (cl.val F.baseURL).scalar
-  if mode == 1 && base == 0 then none else
+  -- a relative URL needs a base URL; with a default scheme set it is no longer relative
+  -- (`scheme://` + path has no host) and the request fails
+  if mode == 1 && (base == 0 || (cl.val F.scheme).scalar != 0) then none else
   let hdr0 := mergeHeaders (cl.val F.headers) (rq.val F.headers)
   let forbid := payloadForbidden method ((cl.val F.allowGetPayload).scalar != 0)
   let form := mergeForm (cl.val F.form) (rq.val F.form)
@@ -501,9 +508,7 @@ def emit (cl rq : VOwner) (method mode : Nat) (path : List Seg) : Option ReqObs 
     cookies := (rq.val F.cookies).toList ++ (cl.val F.cookies).toList ++ (cl.val F.jar).toList
     body := body
     close := (cl.val F.disableKeepAlives).scalar != 0
-    acceptEnc :=
-      if (cl.val F.autoDecompression).scalar != 0 then 2
-      else if (cl.val F.disableCompression).scalar != 0 then 0 else 1 }
+    acceptEnc := if (cl.val F.disableCompression).scalar != 0 then 0 else 1 }
 
 def execCtx (cl rq : VOwner) : ExecCtx :=
   { before := (cl.val F.udBefore).toList
@@ -516,9 +521,11 @@ def execCtx (cl rq : VOwner) : ExecCtx :=
     interval := (rq.val F.retryInterval).scalar
     maxRetries := (rq.val F.retryCount).scalar }
 
-/-- fields reported by `probe` (everything but the jar, which `getCookies` reports) -/
+/-- fields reported by `probe`: everything but the jar and its factory (`getCookies` and the
+marker cookie report them), the closure chains (the log reports them) and the dump options
+(the dump routing of an execution reports them) -/
 def probeFields : List Nat :=
-  [0, 1, 2, 3, 4, 5, 6, 7, 8, 9, 10, 11, 12, 13, 14, 16, 17, 18, 19, 20, 21, 22, 23, 24, 25, 26, 27, 28, 29,
+  [0, 1, 2, 3, 4, 5, 6, 7, 8, 11, 12, 13, 14, 17, 18, 19, 26, 27, 28, 29,
    30, 31, 32, 33, 34, 35, 36, 37, 38, 39, 40, 41, 42, 43, 44, 45, 46, 47, 48, 49, 50, 51, 52, 53, 54, 55,
    56, 57, 58, 59, 60, 61, 62]
 
@@ -526,7 +533,7 @@ def probeFields : List Nat :=
 def probeNorm (m : AMap) : List (Nat × List Nat) := m.filter fun e => !e.2.isEmpty && e.2 != [0]
 
 def probeOwner (w : VOwner) : List (List (Nat × List Nat)) :=
-  probeFields.map fun n => if h : n < nFields then probeNorm (w.val ⟨n, h⟩) else []
+  probeFields.map fun n => if h : n < nFields then probeNorm (sortKeys (w.val ⟨n, h⟩)) else []
 
 /-- Observation of an op on the state BEFORE the op's primitives are applied. -/
 def observe (s : VState) : Op → Obs
@@ -554,7 +561,8 @@ def runWith (tc tr : Table) (s : VState) : List Op → VState × List Obs
   | [] => (s, [])
   | op :: ops =>
     let o := observe s op
-    let s' := runV s (compile tc tr s.count op)
+    -- a failed execution has no effects (the origin's Set-Cookie never arrives)
+    let s' := if o = .err then s else runV s (compile tc tr s.count op)
     let (sf, os) := runWith tc tr s' ops
     (sf, o :: os)
 
